@@ -7,7 +7,7 @@
     is outside the model (the property says "up to rounding"). *)
 From Coq Require Import Reals List.
 From SV Require Import Rot.RotBase Gen.RotFormulas_gen Rot.RotAlgebra Rot.RotAliasProofs Rot.RotEuler Rot.RotEulerProofs
-  Rot.RotDispatch Rot.RotDispatchProofs Rot.RotMixedProofs Gen.RotDispatch_gen Rot.RotGJ Rot.RotGJProofs Rot.RotGJExample
+  Rot.RotDispatch Rot.RotDispatchProofs Rot.RotMixedProofs Gen.RotDispatch_gen Rot.RotGJ Rot.RotGJProofs Rot.RotGJTotal Rot.RotGJTotalProofs Rot.RotGJExample
   Rot.RotReify Gen.RotReified_gen Rot.RotReifyProofs.
 Open Scope R_scope.
 
@@ -76,6 +76,25 @@ Theorem c04_inverse_is_transpose_on_rotations : forall p, gj_prog_ok p = true ->
   forall m n, rotation m -> gj_inverse Rnum p (rows_of m) = GOk n -> mat_of n = transpose m.
 Proof. exact gauss_jordan_inverse_rotation. Qed.
 
+(** inverse() RETURNS on every rotation (exact arithmetic): for every program accepted by the second decidable test
+    [gj_total_ok] (Rot/RotGJTotal.v: intervals for the absolute value of every entry of the left block and a lower bound of
+    |det|; every pivot search finds a pivot, every divisor is non-zero, every diagonal entry passes the threshold test)
+    the interpreter over the reals returns a result on every rotation ... *)
+Theorem c04_inverse_returns_on_rotations : forall p, gj_total_ok p = true ->
+  forall m, rotation m -> exists n, gj_inverse Rnum p (rows_of m) = GOk n.
+Proof. exact gj_inverse_total. Qed.
+(** ... so inverse() equals transpose() on rotations, without the proviso "whenever it returns". *)
+Theorem c04_inverse_equals_transpose_on_rotations : forall p, gj_prog_ok p = true -> gj_total_ok p = true ->
+  forall m, rotation m -> exists n, gj_inverse Rnum p (rows_of m) = GOk n /\ mat_of n = transpose m.
+Proof. exact gj_inverse_rotation_is_transpose. Qed.
+(** The first pivot, quantitatively: the largest entry of every column of a rotation has square >= 1/3 (|pivot| >= 1/sqrt 3),
+    five orders of magnitude above the 0.00001 threshold. *)
+Theorem c04_rotation_column_pivot_bound : forall m, rotation m ->
+  (1 / 3 <= Rmax (aa m * aa m) (Rmax (ba m * ba m) (ca m * ca m))) /\
+  (1 / 3 <= Rmax (ab m * ab m) (Rmax (bb m * bb m) (cb m * cb m))) /\
+  (1 / 3 <= Rmax (ac m * ac m) (Rmax (bc m * bc m) (cc m * cc m))).
+Proof. exact rotation_column_pivot_bound. Qed.
+
 (** ** Matrix -> Angle -> Matrix.  libm's atan2 enters only through the visible premise [atan2_spec]. *)
 Theorem c04_euler_roundtrip : forall atan2, atan2_spec atan2 ->
   forall m, rotation m -> horiz m > 1 / 1000 -> from_angle_obj (to_angle atan2 m) = m.
@@ -126,6 +145,8 @@ Proof. exact mixed_assoc_angle. Qed.
 Example c04_inverse_hyp_satisfiable :
   gj_prog_ok gj_ref_prog = true /\ gj_inverse Rnum gj_ref_prog (rows_of I3) = GOk (rows_of I3).
 Proof. exact gj_identity. Qed.
+Example c04_inverse_total_hyp_satisfiable : gj_total_ok gj_ref_prog = true /\ rotation I3.
+Proof. exact gj_ref_total. Qed.
 (** Non-vacuity: the identity is a rotation outside the gimbal band; the pole is a rotation inside it. *)
 Example c04_hyp_satisfiable_main : rotation I3 /\ horiz I3 > 1 / 1000.
 Proof. exact rotation_I3_main. Qed.
